@@ -169,6 +169,9 @@ type Exec struct {
 	maybeNil          map[string]string
 	rvals             map[string]*rdesc
 	returnsSeen       map[*Clause]bool
+	localList         []*types.Var
+	recvStatic        types.Type
+	rebound           []string
 	boxInfo           map[string]boxRec
 	rfieldNames       map[string]string
 	modDepth          int
@@ -398,24 +401,36 @@ func (x *Exec) join(base *State, ss []*State) *State {
 		}
 		return r
 	}
-	// variables present in every live state
-	for v := range live[0].vars {
+	// variables: a variable declared on some paths only keeps its value on those paths (and is
+	// unconstrained on the others), so that contracts guarded by the path condition can mention it
+	allVars := map[*types.Var]Sort{}
+	for _, s := range live {
+		for v, t := range s.vars {
+			allVars[v] = t.Sort
+		}
+	}
+	var vlist []*types.Var
+	for v := range allVars {
+		vlist = append(vlist, v)
+	}
+	sort.Slice(vlist, func(i, j int) bool {
+		if vlist[i].Pos() != vlist[j].Pos() {
+			return vlist[i].Pos() < vlist[j].Pos()
+		}
+		return vlist[i].Name() < vlist[j].Name()
+	})
+	for _, v := range vlist {
 		vals := make([]Term, len(live))
-		ok, same := true, true
+		same := true
 		for i, s := range live {
 			t, has := s.vars[v]
 			if !has {
-				ok = false
-				break
+				t = x.ctx.Fresh("undef_"+v.Name(), allVars[v])
 			}
 			vals[i] = t
 			if t.S != vals[0].S {
 				same = false
 			}
-		}
-		if !ok {
-			delete(n.vars, v)
-			continue
 		}
 		if same {
 			n.vars[v] = vals[0]
@@ -592,9 +607,38 @@ func (x *Exec) convert(st *State, v Term, from, to types.Type) Term {
 	}
 	from, to = x.subst(types.Unalias(from)), x.subst(types.Unalias(to))
 	if isInterface(to) && !isInterface(from) {
-		return x.box(st, v, from)
+		b := x.box(st, v, from)
+		x.dispatchFacts(st, b, v, from, to)
+		return b
 	}
 	return v
+}
+
+// dispatchFacts links the methods of a repository-declared interface, called on a value boxed from
+// an external concrete type, to that type's own (pure, uninterpreted) methods:
+// I.M(box(v)) == T.M(v) for parameterless single-result methods.
+func (x *Exec) dispatchFacts(st *State, boxed, v Term, from, to types.Type) {
+	if n, ok := types.Unalias(to).(*types.Named); ok && !isRepoObj(n.Obj()) {
+		return // interfaces of other packages: their methods are not linked
+	}
+	it, ok := to.Underlying().(*types.Interface)
+	if !ok {
+		return
+	}
+	for i := 0; i < it.NumMethods(); i++ {
+		im := it.Method(i)
+		sig := im.Type().(*types.Signature)
+		if sig.Params().Len() != 0 || sig.Results().Len() != 1 {
+			continue
+		}
+		obj, _, _ := types.LookupFieldOrMethod(from, true, nil, im.Name())
+		cm, ok := obj.(*types.Func)
+		if !ok || isRepoObj(cm) {
+			continue
+		}
+		rs := x.sortOf(sig.Results().At(0).Type())
+		st.assume(eq(x.ctx.App(methodSym(im, to), rs, boxed), x.ctx.App(methodSym(cm, from), rs, v)))
+	}
 }
 
 // ---- function values ----
